@@ -148,22 +148,37 @@ def rotated_helper(chk, ctx, rule) -> None:
 
 
 def parse_value_helper(chk, ctx, rule) -> None:
-    """utilities.parse_value: int when the text is one, otherwise an exact Decimal; thousands separators dropped"""
-    import ast
+    """utilities.parse_value: int when the text is one, otherwise an exact Decimal; thousands separators dropped - always, whatever the
+    text looks like (a comma is never a decimal point: "$1,500" is fifteen hundred)"""
     from .. import terms as T
+    from ..paths import unversion
     mi = ctx.prog.module('utilities')
     pv = mi.functions.get('parse_value')
     ok = False
+    got = []
     if pv is not None:
-        strips = [n for n in ast.walk(pv.node) if isinstance(n, ast.Assign) and T.norm(n.value) == T.spec("raw_value.replace(',', '')")
-                  and isinstance(n.targets[0], ast.Name)]
-        if len(strips) == 1:
-            v = strips[0].targets[0].id          # the stripped text: the parameter re-bound, or a local of its own
-            ok = any(isinstance(n, ast.Try) and f'int({v})' in ast.unparse(n.body) and any(f'Decimal({v})' in ast.unparse(h) for h in n.handlers)
-                     for n in ast.walk(pv.node))
+        stripped = T.spec("raw_value.replace(',', '')")
+        heads = set()
+        ok = True
+        for p in ctx.paths(pv):
+            if not p.returned:
+                continue
+            r = unversion(p.outcome[1])
+            if r[0] == 'call' and r[1] == 'cast' and len(r[2]) == 2:
+                r = r[2][1]
+            got.append(T.show(r))
+            if r[0] == 'call' and r[1] in ('int', 'Decimal') and r[2] == (stripped,) and not p.conds():
+                heads.add(r[1])
+            else:
+                ok = False
+        ok = ok and heads == {'int', 'Decimal'}
+        # int first, Decimal only when int() refuses the text
+        import ast
+        ok = ok and any(isinstance(n, ast.Try) and 'int(' in ast.unparse(n.body) and 'Decimal(' not in ast.unparse(n.body)
+                        and any('Decimal(' in ast.unparse(h) for h in n.handlers) for n in ast.walk(pv.node))
     chk.ob(rule, 'utilities.parse_value', ok, pv.loc if pv else 'pokerkit/utilities.py',
            'chip text is an int when it can be, otherwise an exact Decimal (so `inf`, exponents and fractions written by the dumper '
-           'read back); thousands separators are ignored')
+           'read back); thousands separators are always ignored', got=sorted(set(got)))
 
 
 def no_format_specs(chk, ctx, rule, fis) -> None:
@@ -224,3 +239,32 @@ def chip_literals(chk, ctx, rule) -> None:
     chk.ob(rule, 'pokerkit:float_literals', not bad and n > 50, f'pokerkit/{bad[0][0]}.py:{bad[0][1].lineno}' if bad else 'pokerkit/',
            'the engine, the default division / rake and the variant definitions use integer literals only (exact for every chip type)',
            got=[f'{m}.py:{x.lineno}: {ast.unparse(x)}' for m, x in bad[:3]] or f'{n} literals')
+
+
+def hand_history_defaults(chk, ctx, rule) -> None:
+    """what a hand history means when a field is not written: antes are not trimmed (the PHH default), every optional field is absent
+    (None) - a history that omits a field must not silently get another game"""
+    import ast
+    hh = ctx.prog.cls('HandHistory')
+    got = {}
+    for st in hh.node.body:
+        if isinstance(st, ast.AnnAssign) and isinstance(st.target, ast.Name) and 'ClassVar' not in ast.unparse(st.annotation) and st.value is not None:
+            got[st.target.id] = st.value
+    d = got.get('ante_trimming_status')
+    chk.ob(rule, 'HandHistory.ante_trimming_status:default', isinstance(d, ast.Constant) and d.value is False, hh.loc,
+           'a history that does not say so is played with untrimmed antes', got=ast.unparse(d) if d is not None else None, want='False')
+    from ..evalstatic import SEval
+    opt = SEval(ctx.prog).class_attr('HandHistory', 'optional_field_names')
+    special = {'ante_trimming_status', 'user_defined_fields', 'automations', 'divmod', 'rake', 'parse_value'}
+    bad = sorted(k for k, v in got.items() if k not in special and not (isinstance(v, ast.Constant) and v.value is None))
+    chk.ob(rule, 'HandHistory:optional_defaults', not bad and len(got) > 30 and isinstance(opt, tuple), hh.loc,
+           'every optional field defaults to None (absent)', got=bad or f'{len(got)} defaults')
+
+
+def resolved_types(chk, ctx, rule, module, want: dict) -> None:
+    """the abstract types an isinstance dispatch names are the ones it means: an import under another name (``Real as Number``) keeps the
+    code reading the same and changes which values take which arm (Decimal is a Number but not a Real)"""
+    mi = ctx.prog.module(module)
+    got = {k: mi.imports.get(k) for k in want}
+    chk.ob(rule, f'{module}:types', got == want, f'pokerkit/{module}.py', 'the type names of the dispatch resolve to the abstract types they are named after',
+           got={k: v for k, v in got.items() if v != want[k]} or 'all', want=want)
